@@ -23,6 +23,7 @@
 #include <stdio.h>
 #include <string.h>
 
+#include <algorithm>
 #include <functional>
 #include <memory>
 #include <string>
@@ -138,6 +139,7 @@ struct Desc {
   int ninputs = 1;
   int ndata = 1;
   std::vector<Vtx> vs;
+  std::vector<int> order;      // add_vertex order (vs itself is topologically sorted)
   std::vector<int> producer;   // per data; -1: input
   std::vector<char> is_cond;   // data is the condition of some dependency => carries int64 0/1
   std::vector<char> exists;    // data is named by some dependency or emit (otherwise the graph does not know it)
@@ -184,6 +186,7 @@ Desc generate(Src& s, bool allow_pool) {
   // on different workers and both activate v2 at the same time (the activate-once CAS of GraphVertex::activate)
   g.motif = s.chance(1, 6);
   if (g.motif && nv < 5) nv = 5;
+  int hot_cond = -1;  // the most recent vertex-produced data used as a condition
   for (int v = 0; v < nv; v++) {
     int ne = s.range(1, 2);
     int nd = (int)s.below(4);
@@ -206,10 +209,16 @@ Desc generate(Src& s, bool allow_pool) {
       int recent = avail < 4 ? avail : 4;
       d.target = s.below(2) == 1 ? (int)s.below((uint32_t)avail) : avail - 1 - (int)s.below((uint32_t)recent);
       if (avail >= 2 && s.chance(2, 5)) {
+        // conditional dependencies: often on an input (published before the run), and often under a condition that is
+        // computed by a vertex and shared with conditional dependencies of other vertices
+        if (s.chance(1, 3)) d.target = (int)s.below((uint32_t)g.ninputs);
         int c = (int)s.below((uint32_t)(avail - 1));
         if (c >= d.target) c++;
+        bool reuse = s.chance(1, 2);
+        if (reuse && hot_cond >= 0 && hot_cond != d.target && hot_cond < avail) c = hot_cond;
         d.cond = c;  // never the dependency's own target
         d.on = !s.flip();
+        if (c >= g.ninputs) hot_cond = c;
       }
       d.essential = s.chance(1, 4);
       d.mutraw = s.below(256);
@@ -243,6 +252,14 @@ Desc generate(Src& s, bool allow_pool) {
     }
     g.vs.push_back(V);
   }
+  // declaration order in the GraphBuilder: half of the graphs declare consumers before producers. The order of
+  // add_vertex decides the order in which a published data notifies its dependencies.
+  for (size_t v = 0; v < g.vs.size(); v++) g.order.push_back((int)v);
+  if (s.chance(1, 2))
+    for (size_t i = g.order.size(); i-- > 1;) {
+      size_t j = i - s.below((uint32_t)(i + 1));
+      std::swap(g.order[i], g.order[j]);
+    }
   size_t nd = (size_t)g.ndata;
   g.producer.assign(nd, -1);
   g.is_cond.assign(nd, 0);
@@ -348,6 +365,12 @@ std::string describe(const Desc& g) {
     if (V.peek >= 0) { snprintf(b, sizeof b, " polls d%d", V.peek); s += b; }
     if (V.yields) { snprintf(b, sizeof b, " y%d", V.yields); s += b; }
     s += ";";
+  }
+  bool identity = true;
+  for (size_t i = 0; i < g.order.size(); i++) identity &= g.order[i] == (int)i;
+  if (!identity) {
+    s += " declared:";
+    for (int o : g.order) { snprintf(b, sizeof b, " v%d", o); s += b; }
   }
   for (size_t r = 0; r < g.rounds.size(); r++) {
     const Round& R = g.rounds[r];
@@ -692,8 +715,9 @@ void run_graph_case(const Desc& g, CaseStats& st) {
   builder.set_name("c05");
   if (g.executor > 0) builder.set_executor(pool);
   char name[16], name2[16];
-  for (size_t v = 0; v < nv; v++) {
+  for (size_t pos = 0; pos < nv; pos++) {
     World* w = &W;
+    size_t v = (size_t)g.order[pos];
     int vid = (int)v;
     auto& vb = builder.add_vertex([w, vid] { return std::unique_ptr<GraphProcessor>(new Proc(w, vid)); });
     for (auto& d : g.vs[v].deps) {
@@ -872,6 +896,18 @@ void label_graph(const Desc& g) {
   if (inj) H::label("g_injector");
   if (g.vs.size() >= 5) H::label("g_vertices_ge5");
   if (g.motif) H::label("g_planted_double_activation_shape");
+  bool identity = true;
+  for (size_t i = 0; i < g.order.size(); i++) identity &= g.order[i] == (int)i;
+  if (!identity) H::label("g_consumers_declared_before_producers");
+  int shared = 0, cond_on_input = 0;
+  for (size_t d = (size_t)g.ninputs; d < (size_t)g.ndata; d++) {
+    int users = 0;
+    for (auto& V : g.vs) { bool u = false; for (auto& dp : V.deps) u |= dp.cond == (int)d; users += u; }
+    shared += users >= 2;
+  }
+  for (auto& V : g.vs) for (auto& dp : V.deps) cond_on_input += dp.cond >= g.ninputs && dp.target < g.ninputs;
+  if (shared) H::label("g_computed_condition_shared_by_vertices");
+  if (cond_on_input) H::label("g_input_under_computed_condition");
 }
 
 void silence_babylon_log() {
